@@ -68,7 +68,8 @@ fn byte_ok(got: u8, p: &Param, j: usize) -> bool {
 fn pad4(n: usize) -> usize {
     (n + 3) / 4 * 4
 }
-/// The 16-bit value the encapsulation header 00 03 00 00 aliases to when it is (wrongly) parsed as a parameter id.
+/// The 16-bit value the encapsulation header 00 03 00 00 reads as if it were (wrongly) parsed as a
+/// parameter id - the decoder did that before fix d2848ed (KF-C13-2); used as a cover witness only.
 const HEADER_ALIAS_LE: i16 = 0x0300;
 const PID_SENTINEL: i16 = 1;
 
@@ -144,7 +145,7 @@ fn encode(ps: &[Param; 3], n: usize) -> Vec<u8> {
 /// that id.  Returns (index of the first parameter with the looked-up id, q).
 fn lookup(buf: &Vec<u8>, ps: &[Param; 3], n: usize, also_non_optional: bool) -> (Option<usize>, i16) {
     let q: i16 = kani::any();
-    kani::assume(q != PID_SENTINEL && q != HEADER_ALIAS_LE);
+    kani::assume(q != PID_SENTINEL);
     let pl = match ParameterList::new(buf.as_slice()) {
         Ok(pl) => pl,
         Err(_) => {
@@ -191,13 +192,13 @@ fn lookup(buf: &Vec<u8>, ps: &[Param; 3], n: usize, also_non_optional: bool) -> 
 // @check props=C13 tier=quick
 // @desc encoder layout: one parameter of every length 0..=8 and a list of three parameters (lengths 6, 4, 1) written by the real ParameterListSerializer are exactly {header 00 03 00 00, per parameter: id LE, length LE = value length rounded up to 4, value bytes in order, zero padding to a multiple of 4; sentinel 01 00 00 00}
 // @bounds value length each of 0..=8 (nine single-parameter cases) and the triple (6,4,1), lengths concrete per case; ids any i16 except 1; value bytes symbolic. unwind 11 (nine single-parameter cases + 2)
-// @assume value lengths <= 8 (the negation of trigger KF-C13-1 is covered only up to this bound)
+// @assume value lengths <= 8 (longer values, in particular > 65532 bytes where the 16-bit length field wraps, are outside: see the property table)
 // @enc dcps::data_representation_builtin_endpoints::rtps_data_representation_serialization::ParameterListSerializer::write_header
 // @enc dcps::data_representation_builtin_endpoints::rtps_data_representation_serialization::ParameterListSerializer::write_cdr_parameter
 // @enc dcps::data_representation_builtin_endpoints::rtps_data_representation_serialization::ParameterListSerializer::write_sentinel
 #[kani::proof]
 #[kani::unwind(11)]
-fn c13_encoder_layout__rest() {
+fn c13_encoder_layout() {
     let mut l = 0;
     while l <= MAXV {
         let ps = [param_of_len(l), param_of_len(0), param_of_len(0)];
@@ -215,34 +216,32 @@ fn c13_encoder_layout__rest() {
 }
 
 // @check props=C13 tier=quick
-// @desc encoder -> decoder, one parameter (length 3: one padding byte): looking up ANY id q with the real ParameterList returns exactly the written bytes plus zero padding if q is the written id, the caller's default otherwise; get_non_optional_parameter finds it / reports PidNotFound(q)
-// @bounds one parameter of 3 bytes; id any i16 except 1 (the sentinel); bytes symbolic; looked-up id any i16 except 1 and 0x0300 (the encapsulation header read as a parameter id - no PID has that value; the big-endian counterpart is KF-C13-2). unwind 5 (the decoder loop sees header pseudo-parameter, parameter, sentinel; harness code is loop-free)
-// @assume q != 0x0300
+// @desc encoder -> decoder, one parameter (length 3: one padding byte): looking up ANY id q with the real ParameterList returns exactly the written bytes plus zero padding if q is the written id, the caller's default otherwise (get_non_optional_parameter / PidNotFound: thorough tier, c13_roundtrip_three_parameters_b)
+// @bounds one parameter of 3 bytes; id any i16 except 1 (the sentinel); bytes symbolic; looked-up id any i16 except 1 (including 0x0300 / 0x0002, the values the encapsulation header would read as: the header is not a parameter). unwind 5 (the decoder loop sees header pseudo-parameter, parameter, sentinel; harness code is loop-free)
 // @enc dcps::data_representation_builtin_endpoints::rtps_data_representation_serialization::ParameterListSerializer::write_cdr_parameter
 // @enc dcps::data_representation_builtin_endpoints::rtps_data_representation::ParameterList::get_optional_parameter
-// @enc dcps::data_representation_builtin_endpoints::rtps_data_representation::ParameterList::get_non_optional_parameter
 // @enc dcps::data_representation_builtin_endpoints::rtps_data_representation::PidIterator::next
 #[kani::proof]
 #[kani::unwind(5)]
-fn c13_roundtrip_one_parameter__rest() {
+fn c13_roundtrip_one_parameter() {
     let ps = [param_of_len(3), param_of_len(0), param_of_len(0)];
     let buf = encode(&ps, 1);
-    let (first, _q) = lookup(&buf, &ps, 1, true);
+    let (first, q) = lookup(&buf, &ps, 1, false);
     kani::cover!(first == Some(0) && ps[0].val[2] != 0 && ps[0].pid < 0, "vendor-specific id found, one padding byte");
     kani::cover!(first.is_none(), "id absent");
+    kani::cover!(first.is_none() && q == HEADER_ALIAS_LE, "looking up 0x0300 (the header read as an id) finds nothing");
     core::mem::forget(buf);
 }
 
 // @check props=C13 tier=quick
 // @desc encoder -> decoder, three parameters with ANY ids (standard, unknown, PID_PAD, vendor-specific >= 0x8000; ids may repeat): a lookup returns the FIRST parameter with the looked-up id - parameters with other ids before and after it are skipped over by their length field - or the default if absent
-// @bounds three parameters of lengths (0, 3, 8) (concrete), ids and value bytes symbolic; looked-up id any i16 except 1 and 0x0300. unwind 7 (header pseudo-parameter + 3 parameters + sentinel + 2)
-// @assume q != 0x0300
+// @bounds three parameters of lengths (0, 3, 8) (concrete), ids and value bytes symbolic; looked-up id any i16 except 1. unwind 7 (header pseudo-parameter + 3 parameters + sentinel + 2)
 // @enc dcps::data_representation_builtin_endpoints::rtps_data_representation_serialization::ParameterListSerializer::write_cdr_parameter
 // @enc dcps::data_representation_builtin_endpoints::rtps_data_representation::ParameterList::get_optional_parameter
 // @enc dcps::data_representation_builtin_endpoints::rtps_data_representation::PidIterator::next
 #[kani::proof]
 #[kani::unwind(7)]
-fn c13_roundtrip_three_parameters__rest() {
+fn c13_roundtrip_three_parameters() {
     let ps = [param_of_len(0), param_of_len(3), param_of_len(8)];
     let buf = encode(&ps, 3);
     let (first, q) = lookup(&buf, &ps, 3, false);
@@ -254,17 +253,17 @@ fn c13_roundtrip_three_parameters__rest() {
 }
 
 // @check props=C13 tier=thorough timeout=1800
-// @desc as c13_roundtrip_three_parameters__rest for the length triple (6, 4, 1) and, in the same harness, the empty list (header + sentinel only)
+// @desc as c13_roundtrip_three_parameters for the length triple (6, 4, 1) and, in the same harness, the empty list (header + sentinel only)
 // @bounds three parameters of lengths (6, 4, 1); the empty list; ids and bytes symbolic. unwind 7
-// @assume q != 0x0300
 // @enc dcps::data_representation_builtin_endpoints::rtps_data_representation::ParameterList::get_optional_parameter
+// @enc dcps::data_representation_builtin_endpoints::rtps_data_representation::ParameterList::get_non_optional_parameter
 // @enc dcps::data_representation_builtin_endpoints::rtps_data_representation::PidIterator::next
 #[kani::proof]
 #[kani::unwind(7)]
-fn c13_roundtrip_three_parameters_b__rest() {
+fn c13_roundtrip_three_parameters_b() {
     let ps = [param_of_len(6), param_of_len(4), param_of_len(1)];
     let buf = encode(&ps, 3);
-    let (first, _q) = lookup(&buf, &ps, 3, false);
+    let (first, _q) = lookup(&buf, &ps, 3, true);
     kani::cover!(first == Some(1) && ps[0].pid < 0 && ps[2].pid < 0, "found between two vendor-specific (negative i16) ids");
     kani::cover!(first == Some(2), "last parameter (1 byte, 3 padding bytes) found");
     core::mem::forget(buf);
@@ -275,22 +274,21 @@ fn c13_roundtrip_three_parameters_b__rest() {
     core::mem::forget(buf0);
 }
 
-// KF-C13-1 (length field truncation, `(len) as u16` in write_cdr_parameter for values > 65532 bytes) is NOT
-// demonstrated by a harness: passing a 65536-byte slice to the real write_cdr_parameter makes CBMC 6.11
-// crash (status 139, stack exhaustion) before symbolic execution with the default 8 MB stack; with an
-// unlimited stack symbolic execution of the 64 KiB copy alone takes 405 s and the run does not finish in
-// 600 s.  The computation is not factored into a function that could be called with a symbolic length.
-// It is reported as a finding by inspection (known_findings.d/qos.json, status "reported").
+// NOT decided here (observation from code reading only, see the property table 'outside'): write_cdr_parameter
+// stores `(padded value length) as u16`, so a value longer than 65532 bytes gets a wrapped length field.
+// Passing a 65536-byte slice to the real write_cdr_parameter makes CBMC 6.11 crash (status 139, stack
+// exhaustion) before symbolic execution with the default 8 MB stack; with an unlimited stack symbolic
+// execution of the 64 KiB copy alone takes 405 s and the run does not finish in 600 s; the computation is not
+// factored into a function that could be called with a symbolic length.
 
-// @check props=C13 tier=quick known=KF-C13-2
-// @desc KF-C13-2: a big-endian parameter list (PL_CDR_BE, header 00 02 00 00 - what other vendors' big-endian participants send) holding PID_PARTICIPANT_LEASE_DURATION (0x0002) with a symbolic duration must decode to that duration - expected to FAIL: PidIterator starts at offset 0 and parses the 4-byte encapsulation header itself as a parameter (id 0x0002, length 0), so the lookup of id 2 returns the empty pseudo-parameter and the Duration decoder fails with NotEnoughData (SpdpDiscoveredParticipantData::from_bytes therefore rejects every big-endian participant announcement)
+// @check props=C13 tier=quick
+// @desc regression obligation for the repaired KF-C13-2 (PidIterator used to parse the encapsulation header as a parameter): a big-endian parameter list (PL_CDR_BE, header 00 02 00 00 - what other vendors' big-endian participants send) holding PID_PARTICIPANT_LEASE_DURATION (0x0002, the value the header would read as) with a symbolic duration decodes to exactly that duration
 // @bounds bytes built by hand per RTPS 9.4.2.11: header 00 02 00 00, (id 0x0002 BE, length 8 BE, sec BE, nanosec BE), sentinel; sec and nanosec symbolic. unwind 5
-// @assume trigger KF-C13-2: the looked-up id equals the encapsulation identifier read as a 16-bit id (0x0002 for PL_CDR_BE; 0x0300 for PL_CDR_LE, which no PID uses)
 // @enc dcps::data_representation_builtin_endpoints::rtps_data_representation::ParameterList::get_optional_parameter
 // @enc dcps::data_representation_builtin_endpoints::rtps_data_representation::PidIterator::next
 #[kani::proof]
 #[kani::unwind(5)]
-fn c13_big_endian_header_alias__known() {
+fn c13_big_endian_lease_duration() {
     let sec: i32 = kani::any();
     let nanosec: u32 = kani::any();
     kani::assume(nanosec < 1_000_000_000);
@@ -312,17 +310,16 @@ fn c13_big_endian_header_alias__known() {
 }
 
 // @check props=C13 tier=quick
-// @desc sibling of KF-C13-2 (negation of the trigger): in a big-endian list every id other than the header alias 0x0002 is looked up correctly - the parameter written after the header is found with its big-endian value, an id that is absent yields the default
-// @bounds bytes built by hand: header 00 02 00 00, one parameter (id symbolic BE != 1, != 2; length 8; two symbolic 32-bit words BE), sentinel; looked-up id symbolic != 1, != 2. unwind 5
-// @assume NOT trigger KF-C13-2: written and looked-up ids differ from 0x0002
+// @desc big-endian list, ANY written id and ANY looked-up id (including 0x0002, the value the header would read as): the parameter written after the header is found with its big-endian value, an id that is absent yields the default
+// @bounds bytes built by hand: header 00 02 00 00, one parameter (id symbolic BE != 1; length 8; two symbolic 32-bit words BE), sentinel; looked-up id symbolic != 1. unwind 5
 // @enc dcps::data_representation_builtin_endpoints::rtps_data_representation::ParameterList::get_optional_parameter
 // @enc dcps::data_representation_builtin_endpoints::rtps_data_representation::PidIterator::next
 #[kani::proof]
 #[kani::unwind(5)]
-fn c13_big_endian_lookup__rest() {
+fn c13_big_endian_lookup() {
     let pid: i16 = kani::any();
     let q: i16 = kani::any();
-    kani::assume(pid != 1 && pid != 2 && q != 1 && q != 2);
+    kani::assume(pid != 1 && q != 1);
     let sec: i32 = kani::any();
     let nanosec: u32 = kani::any();
     let p = pid.to_be_bytes();
@@ -346,5 +343,7 @@ fn c13_big_endian_lookup__rest() {
     }
     kani::cover!(q == pid && pid < 0, "vendor-specific id found in a big-endian list");
     kani::cover!(q != pid, "absent id in a big-endian list");
+    kani::cover!(q == 2 && pid != 2, "looking up 0x0002 (the header read as an id) in a list without it yields the default");
+    kani::cover!(q == 2 && pid == 2, "id 0x0002 written and found");
 }
 
